@@ -107,4 +107,16 @@ META = {
                 "GroupMessageList with until_now are not driven (they forward the three parameters unchanged)",
         "technique": "deterministic simulation: seeded delivery plans to a real replica + exhaustive range enumeration vs causal-order model",
     },
+    "C03": {
+        "text": "Fault enumeration with a Byzantine group member inside the simulated network: all 21 event types x the forgery catalogue "
+                "are sealed with the real group secret and offered to openGroupEnvelope (all must be refused, the correctly signed "
+                "twin of every type must be accepted), and seeded batches of forged entries plus valid control events are appended "
+                "to the Byzantine member's real metadata log and replicated through SimNet to an honest replica: its state digest "
+                "must not move while only forged entries arrive, no EventMetadataReceived may be emitted for a forged entry, every "
+                "valid entry must be emitted, honest replicas with equal entries agree.",
+        "design_ref": "section 5, C03",
+        "note": "the catalogue is enumerated completely per run at the envelope level (bit-flip positions are seeded); at the replication "
+                "level 1-4 batches of 1-5 forged entries per run are sampled. Ed25519 unforgeability is trusted (symbolic adversary)",
+        "technique": "deterministic simulation with a Byzantine member: forgery-catalogue enumeration + simulated replication to an honest real replica",
+    },
 }
